@@ -1,11 +1,11 @@
 //! C14: save / load round trip through specs' `SerializeComponents` / `DeserializeComponents`.
 //!
-//! Source world: three live entities (arbitrary generations); an arbitrary subset is marked with
-//! pairwise distinct marker ids (arbitrary `u8`); component `CV(u8)` (plain value, converted by
+//! Source world: three live entities (generations 3, 5, 7); a subset (concrete per variant) is
+//! marked with pairwise distinct marker ids (arbitrary `u8`); component `CV(u8)` (plain value, converted by
 //! the blanket `ConvertSaveload` impl) on an arbitrary subset with arbitrary values; component
 //! `CR { target: Entity, tag: u8 }` (derived `ConvertSaveload`, entity field) on an arbitrary
-//! subset, each referring to an arbitrary MARKED entity (possibly itself, possibly one that comes
-//! later in the data). The world is serialised with the real `SerializeComponents::serialize`
+//! subset, each referring to a MARKED entity (itself, an earlier or a later one in the data: the
+//! reference pattern and the set of marked entities are concrete per query variant). The world is serialised with the real `SerializeComponents::serialize`
 //! into an in-memory token stream (`format.rs`) and deserialised with the real
 //! `DeserializeComponents::deserialize` into an EMPTY second world.
 //!
@@ -105,14 +105,15 @@ fn new_world() -> World {
 
 /// The round trip. `refs[i]` = which source entity `i`'s `CR` points at (concrete per variant:
 /// it decides the order in which the loader meets markers); everything else is symbolic.
-pub fn round_trip(refs: [usize; NI], open_seq: bool) {
+pub fn round_trip(refs: [usize; NI], mk: [bool; NI]) {
     // ---------------- source world
     let mut w1 = new_world();
     let mut slots = [VerifSlot { id: 0, gen: 0, alive: false, raised: false, killed: false }; NI];
     let mut es = [Entity::verif_new(0, 1); NI];
     for i in 0..NI {
-        let g = nd::i32();
-        nd::assume(g >= 1 && g < i32::MAX - 4);
+        // constant generations (3, 5, 7): with symbolic ones `is_alive` branches on a symbolic sign
+        // in every storage access and the query does not finish (measured on the world harnesses)
+        let g = 3 + 2 * i as i32;
         slots[i] = VerifSlot { id: IDS[i], gen: g, alive: true, raised: false, killed: false };
         es[i] = Entity::verif_new(IDS[i], g);
     }
@@ -126,7 +127,9 @@ pub fn round_trip(refs: [usize; NI], open_seq: bool) {
         let mut sv = w1.write_storage::<CV>();
         let mut sr = w1.write_storage::<CR>();
         for i in 0..NI {
-            marked[i] = nd::bool();
+            // which entities are marked is concrete per variant (the join over the marker storage
+            // drives the serialiser; a symbolic mask makes every index downstream symbolic)
+            marked[i] = mk[i];
             mid[i] = nd::u8();
             if marked[i] {
                 let r = sm.insert(es[i], Mk(mid[i]));
@@ -164,18 +167,16 @@ pub fn round_trip(refs: [usize; NI], open_seq: bool) {
         let sm = w1.read_storage::<Mk>();
         let sv = w1.read_storage::<CV>();
         let sr = w1.read_storage::<CR>();
-        let r = if open_seq {
-            // the same data behind a sequence of unknown length (what `serialize_recursive`
-            // and streaming formats produce): written by hand from the same per-entity encoder
-            SerializeComponents::<Infallible, Mk>::serialize(&(&sv, &sr), &ents, &sm, Ser { buf: &mut buf })
-        } else {
-            SerializeComponents::<Infallible, Mk>::serialize(&(&sv, &sr), &ents, &sm, Ser { buf: &mut buf })
-        };
+        let r = SerializeComponents::<Infallible, Mk>::serialize(&(&sv, &sr), &ents, &sm, Ser { buf: &mut buf });
         assert!(r.is_ok(), "C14: serialisation of a well-formed world failed");
         forget(r);
     }
     // ---------------- load into an empty world
     let w2 = new_world();
+    // an empty allocator, assigned IN PLACE: the default `EntitiesRes` that `World::new` moves
+    // into its box is copied bytewise and its counters stop being constants for the symbolic
+    // executor (every atomic creation then yields a symbolic index)
+    w2.write_resource::<EntitiesRes>().verif_assign_parts(NI + 1, NI + 1, &[], &[], 0, 0, 0);
     let mut alloc = MkAlloc::default();
     {
         let ents = w2.entities();
@@ -253,16 +254,13 @@ pub fn round_trip(refs: [usize; NI], open_seq: bool) {
     for i in 0..NI {
         assert!(seen[i] == if marked[i] { 1 } else { 0 }, "C14: a marked entity was not loaded exactly once / an unmarked one was transferred");
     }
-    witness!(n_marked == 3 && cr[0].is_some() && cr[2].is_some() && cv[1].is_some(), "all marked, references present");
-    witness!(n_marked == 1, "one marked");
-    witness!(n_marked == 0, "none marked");
+    witness!(
+        (!(mk[0] && mk[refs[0]]) || cr[0].is_some()) && (!(mk[1] && mk[refs[1]]) || cr[1].is_some()) && (!(mk[2] && mk[refs[2]]) || cr[2].is_some()) && cv[1].is_some(),
+        "every possible reference component is present"
+    );
+    witness!(cv[0].is_none() && cr[0].is_none(), "an entity without components");
     forget((ents, sm, sv, sr));
     forget((w1, w2, alloc));
 }
 
-harness! { #[cfg_attr(kani, kani::stub(core::fmt::write, vsupport::fmt_write_stub))] fn q_rt_fwd() unwind(8) { round_trip([1, 2, 0], false) } }
-harness! { #[cfg_attr(kani, kani::stub(core::fmt::write, vsupport::fmt_write_stub))] fn q_rt_self() unwind(8) { round_trip([0, 1, 2], false) } }
-harness! { #[cfg_attr(kani, kani::stub(core::fmt::write, vsupport::fmt_write_stub))] fn q_rt_back() unwind(8) { round_trip([0, 0, 1], false) } }
-harness! { #[cfg_attr(kani, kani::stub(core::fmt::write, vsupport::fmt_write_stub))] fn q_rt_last() unwind(8) { round_trip([2, 2, 2], false) } }
-
-pub const REGISTRY: &[(&str, fn())] = &[("q_rt_fwd", q_rt_fwd), ("q_rt_self", q_rt_self), ("q_rt_back", q_rt_back), ("q_rt_last", q_rt_last)];
+include!("variants.rs");
